@@ -37,9 +37,10 @@ def _tc(f):
     return [f // (30 * 3600), (f // (30 * 60)) % 60, (f // 30) % 60, f % 30]
 
 
-def _row_text(rng, rich):
+def _row_text(rng, rich, width=None):
     if not rich:
-        n = rng.randrange(1, 12)
+        # now and then a row as wide as the screen (32 columns from column 0) or one short of it
+        n = width or rng.choice([rng.randrange(1, 12)] * 6 + [31, 32])
         cps = [rng.choice(sccgen.LETTERS) for _ in range(n)]
         syms = []
         for k in range(0, len(cps) - 1, 2):
@@ -60,8 +61,10 @@ def roll_program(rng, depth, base, nrows, drop, repeat_ru, rich=False, gap=None,
         syms.append({"k": "CR"})
         if repeat_ru and k > 0:
             syms.append({"k": "RU", "n": depth})
-        syms.append({"k": "PAC", "r": base, "c": rng.choice([0, 0, 4, 8]), "i": False})
-        syms += _row_text(rng, rich)
+        body = _row_text(rng, rich)
+        wide = sum(2 if (s["k"] == "CH" and s["b"]) else 1 for s in body) > 20
+        syms.append({"k": "PAC", "r": base, "c": 0 if wide else rng.choice([0, 0, 4, 8]), "i": False})
+        syms += body
         lines.append({"tc": _tc(f), "drop": drop, "syms": syms})
         f += len(syms) * 2 + (gap if gap is not None else rng.randrange(10, 200))
     # a closing carriage return ends the last row there and then; inside a longer stream the
@@ -79,8 +82,10 @@ def paint_program(rng, nrows, drop, adjacent, rich=False):
         syms = []
         if k == 0:
             syms.append({"k": "RDC"})
-        syms.append({"k": "PAC", "r": r, "c": rng.choice([0, 4]), "i": False})
-        syms += _row_text(rng, rich)
+        body = _row_text(rng, rich)
+        wide = sum(2 if (s["k"] == "CH" and s["b"]) else 1 for s in body) > 20
+        syms.append({"k": "PAC", "r": r, "c": 0 if wide else rng.choice([0, 4]), "i": False})
+        syms += body
         lines.append({"tc": _tc(f), "drop": drop, "syms": syms})
         f += len(syms) * 2 + rng.randrange(10, 200)
     return lines
